@@ -21,6 +21,21 @@ Section Generic.
     unfold rescale_with. induction pos as [|[k' v] r IH]; cbn; [reflexivity|].
     destruct (Z.eqb k k'); [reflexivity|exact IH].
   Qed.
+
+  (** label independence of the update loop: relabelling the keys commutes with rescaling
+      (no label is ever compared or computed with) *)
+  Theorem rescale_relabel : forall (f : Z -> Z) db lens (pos : list (Z * @vec2 M)),
+    rescale_with o db lens (map (fun kv => (f (fst kv), snd kv)) pos)
+    = map (fun kv => (f (fst kv), snd kv)) (rescale_with o db lens pos).
+  Proof. intros. unfold rescale_with. rewrite !map_map. reflexivity. Qed.
+  (** ... and the bond lengths seen through relabelled look-ups are the same list *)
+  Theorem lens_relabel : forall sqrt (f : Z -> Z) (posf posf' : Z -> @vec2 M) edges,
+    (forall k, posf' (f k) = posf k) ->
+    lens_of o sqrt posf' (map (fun e => (f (fst e), f (snd e))) edges) = lens_of o sqrt posf edges.
+  Proof.
+    intros sqrt f posf posf' edges H. unfold lens_of. rewrite map_map. apply map_ext. intros e.
+    unfold bond_len. cbn. rewrite !H. reflexivity.
+  Qed.
 End Generic.
 
 (** ---------- over Q *)
